@@ -76,7 +76,7 @@ END { print NR }`,
 	"blocked-getline":    `BEGIN { print "s1"; tick(1); cmdhang | getline x; tick(2); for (i = 0; i < 100000; i++) x++ }`,
 	// the command spawns a grandchild that keeps the pipe open, then both hang: killing the
 	// command does not end the read (WaitDelay must)
-	"blocked-getline-grandchild": `BEGIN { print "s1"; tick(1); cmdspawn | getline x; tick(2); for (i = 0; i < 100000; i++) x++ }`,
+	"blocked-getline-grandchild": `BEGIN { print "s1"; print "f1" > "out1"; tick(1); cmdspawn | getline x; tick(2); for (i = 0; i < 100000; i++) x++ }`,
 	// never cancelled, standard output fails while a system() child's output is copied to it
 	"system-sinkfail": `BEGIN { r = system(cmdemit); printf "r=%s\n", r > "out1"; close("out1"); tick(1); print "after" }`,
 }
@@ -136,6 +136,7 @@ var c15funcs = map[string]any{
 type c15Result struct {
 	Stdout, Files  string
 	Stderr         string
+	FilesAtReturn  string // blocked archetypes: the files at the instant the call returned
 	Status         int
 	Err            error
 	Panic          string
@@ -475,6 +476,13 @@ func c15Exec(sc *c15Scn, cancel string, cancelStep, cancelTick int, log *core.Lo
 				r = <-done
 				res.Blocked = "NOT interrupted: the call returned only after the simulator killed the child itself"
 			}
+			// nothing of the interpreter may still be executing once the call has returned
+			atReturn := steps
+			res.FilesAtReturn = core.SnapshotString(fs.Snapshot())
+			time.Sleep(400 * time.Millisecond)
+			if steps != atReturn {
+				res.Blocked += fmt.Sprintf("; the interpreter executed %d more VM steps after the call had returned", steps-atReturn)
+			}
 			if m, ok := child.WaitMsg("EOF", 5*time.Second); !ok || m != "EOF" {
 				res.Blocked += "; child still alive after the call returned"
 				srv.KillAll()
@@ -558,7 +566,7 @@ func (e c15Engine) Run(scAny any, keep bool) core.Outcome {
 		}
 		if cancel == "blocked" {
 			out.Probe("cancel_while_blocked_on_child", 1)
-			if !strings.HasPrefix(res.Blocked, "returned after cancellation") || strings.Contains(res.Blocked, "still alive") {
+			if !strings.HasPrefix(res.Blocked, "returned after cancellation") || strings.Contains(res.Blocked, "still alive") || strings.Contains(res.Blocked, "more VM steps") {
 				return &core.Failure{Oracle: "blocked-on-child", Detail: d + ": " + res.Blocked}
 			}
 		}
@@ -619,9 +627,12 @@ func (e c15Engine) Run(scAny any, keep bool) core.Outcome {
 				return &core.Failure{Oracle: "delivered", Detail: fmt.Sprintf("%s: %d prints had completed when the context was closed, stdout holds %d tokens (-1 = malformed): %q", d, k, ns, clip(res.Stdout, 200))}
 			}
 			out.Probe("delivery_checked_after_cancel", 1)
-		case "blocked-system", "blocked-close", "blocked-getline", "blocked-getline-grandchild":
+		case "blocked-system", "blocked-close", "blocked-getline", "blocked-getline-grandchild", "blocked-grandchild":
 			if !strings.HasPrefix(res.Stdout, "s1\n") {
 				return &core.Failure{Oracle: "delivered", Detail: fmt.Sprintf("%s: 's1' was printed before the wait but stdout is %q", d, res.Stdout)}
+			}
+			if sc.Arch == "blocked-getline-grandchild" && strings.HasPrefix(res.Blocked, "returned after cancellation") && !strings.Contains(res.FilesAtReturn, `"out1"="f1\n"`) {
+				return &core.Failure{Oracle: "delivered", Detail: fmt.Sprintf("%s: 'f1' was printed to the file out1 before the wait but when the call returned the files were %s", d, res.FilesAtReturn)}
 			}
 		}
 		return nil
